@@ -159,7 +159,8 @@ func ValidateIssuer(issuer string, allowInsecure bool) error {
 }
 
 func ValidateIssuerPath(issuer *url.URL) error {
-	if issuer.Fragment != "" || len(issuer.Query()) > 0 {
+	// RawQuery, not Query(): the parsed form drops pairs it cannot parse (e.g. "?a;b", "?%zz=1")
+	if issuer.Fragment != "" || issuer.RawQuery != "" || issuer.ForceQuery {
 		return ErrInvalidIssuerPath
 	}
 	return nil
